@@ -22,6 +22,8 @@
 (* Parameters of a shape (meaning by form):                                *)
 (*   run       a consecutive glyphs with constant delta (GSUB 1)           *)
 (*   map       a glyphs without constant delta (GSUB 1)                    *)
+(*   rund      a glyphs, format 1 with the b-th of the deltas -1, -255,    *)
+(*             -256, -257, 255, 256, -500, 1 (fonts with 600 glyphs)       *)
 (*   mult      a glyphs, replacement length b                              *)
 (*   alt       a glyphs, b sorted alternates each                          *)
 (*   lig       a first glyphs, b ligatures each, c components              *)
@@ -119,6 +121,10 @@ Big ==
   \cup {Sh("GPOS", 3, Rep(13, <<"curs">>), 2, 0, 0, 0, 0)}
   \cup {Sh("GPOS", 4, <<"markbase">>, 13, 2, 13, 0, 0), Sh("GPOS", 4, Rep(13, <<"markbase">>), 2, 2, 1, 0, 0)}
 BigFonts == Fonts \cap {"nc", "x"}
+(* GSUB 1 format 1 with glyph id differences -1, -255, -256, -257, 255, 256, -500, 1 (parameter b = 0..7; *)
+(* negative differences are stored modulo 65536), over the fonts with 600 glyphs                           *)
+Deltas == {Sh("GSUB", 1, <<"rund">>, a, b, 0, 0, 0) : a \in {1, 2, 3, 13}, b \in 0..7}
+LargeFonts == {"L", "Lx"}
 
 With(s, fl, lst, font) ==
   [tab |-> s.tab, typ |-> s.typ, forms |-> s.forms, a |-> s.a, b |-> s.b, c |-> s.c, d |-> s.d, e |-> s.e,
@@ -129,6 +135,7 @@ Shapes ==
   \cup {With(s, fl, lst, f) : s \in {g \in Basic : WellFormed(g)}, fl \in AllFlags, lst \in {"single", "middle"},
                               f \in Fonts}
   \cup {With(s, {}, "single", f) : s \in {g \in Big : WellFormed(g)}, f \in BigFonts}
+  \cup {With(s, fl, "single", f) : s \in Deltas, fl \in {{}, {"marks"}}, f \in LargeFonts}
 
 (* The same enumeration run also renders the hand-specified descriptions of DslLang.tla   *)
 (* (one behaviour per description: the record [mid, font, text]) and checks that the       *)
